@@ -89,6 +89,9 @@ def classTable : List (String × Class × String) := [
   ("csvOutputConfig", .fromConfig, "Config.CSVOutput"),
   ("savedFieldSep", .vars, "FS at the time $0 was read"),
   ("savedFieldSepRegex", .vars, "compiled FS at the time $0 was read"),
+  ("savedInputMode", .perRun, "input mode at the time $0 was set (G06-1 repair 7d0fcb7): written by setLine, read by the lazy field split, reset by resetCore"),
+  ("savedCSVConfig", .perRun, "CSV input configuration at the time $0 was set (G06-1 repair)"),
+  ("savedParagraphMode", .perRun, "RS was empty at the time $0 was set (G06-1 repair)"),
   ("program", .immutable, "the parsed program"),
   ("functions", .immutable, "compiled functions"),
   ("nums", .immutable, "number constants"),
